@@ -1,14 +1,23 @@
 // C01: feed a call sequence to the real AspifOutput, print the bytes, read them back with the real AspifInput
 // (modes 0/1), or read a given text, write what was delivered with AspifOutput and read that again (modes 2/3).
 // See coq/C01/Model.v for the case / observation layout.
+// In the same (primed) cases every AspifOutput object has written another program before the case's calls (writer reuse, see writeCalls).
 // Every other case (reuse::primed, a hash of the case) does each read with a reader OBJECT that has read (or refused) a primer text before, see reuse.h.
 #include "common.h"
 #include "c01_read.h"
 #include <potassco/match_basic_types.h>
-static int writeCalls(Case& c, std::string& text) {
+// Writer REUSE: in the primed cases the AspifOutput OBJECT has written another program before (incremental, one complete step and one
+// abandoned inside a step); that text is thrown away. AspifOutput keeps nothing but the stream, so this must be invisible.
+static int writeCalls(Case& c, std::string& text, bool reused) {
 	std::ostringstream os;
 	try {
 		Potassco::AspifOutput out(os);
+		if (reused) {
+			Potassco::Atom_t h = 1; Potassco::Lit_t b = -2;
+			out.initProgram(true); out.beginStep(); out.rule(Potassco::Head_t::Choice, Potassco::toSpan(&h, 1), Potassco::toSpan(&b, 1)); out.endStep();
+			out.beginStep(); out.output(Potassco::toSpan("pa", 2), Potassco::toSpan(&b, 1)); out.external(h, Potassco::Value_t::True);
+			os.str(std::string());
+		}
 		while (playCall(c, out)) { ; }
 	}
 	catch (const std::exception&) { return 7; }
@@ -24,7 +33,7 @@ int main() {
 		if (n != Potassco::BufferedStream::BUF_SIZE) { o.add(-999); o.flush(); continue; }
 		std::string text;
 		if (mode < 2) {
-			if (int cls = writeCalls(c, text)) { o.add(-cls); o.flush(); continue; }
+			if (int cls = writeCalls(c, text, primed != 0)) { o.add(-cls); o.flush(); continue; }
 			o.add((ll)text.size()); o.addBytes(text.data(), text.size());
 			c01::readText(text, mode, o, 0, primed);
 		}
@@ -38,7 +47,7 @@ int main() {
 			if (!rec.s.empty()) { o.s += ' '; o.s += rec.s; }
 			if (ok) {
 				std::string t2;
-				if (int cls = writeCalls(cc, t2)) { o.add(-cls); o.flush(); continue; }
+				if (int cls = writeCalls(cc, t2, primed != 0)) { o.add(-cls); o.flush(); continue; }
 				o.add((ll)t2.size()); o.addBytes(t2.data(), t2.size());
 				c01::readText(t2, mode - 2, o, 0, primed);
 			}
